@@ -61,6 +61,7 @@ class Flattener:
         self.counter = [0]
         self.inlined = []
         self.root = None
+        self._nested = {}
 
     # ------------------------------------------------------------------ which calls
     def callee(self, call, stack):
@@ -76,7 +77,17 @@ class Flattener:
                     g = None
         elif isinstance(fn, ast.Name):
             g = self.m.funcs.get('%s.%s' % (self.func.module.name, fn.id))
-        if g is None or not g.name.startswith('_') or g.name.startswith('__'):
+            if g is None and self.root is not None:
+                # a function defined inside the function being flattened (it sees the enclosing locals; inlining
+                # renames only its own locals): treated like a private helper
+                defs = [d for d in ast.walk(self.root) if isinstance(d, ast.FunctionDef) and d.name == fn.id and d is not self.root]
+                if len(defs) == 1 and not any(isinstance(x, (ast.Nonlocal, ast.Global)) for x in ast.walk(defs[0])):
+                    g = self._nested.get(id(defs[0]))
+                    if g is None:
+                        g = Func(self.func.module, None, defs[0], 'function')
+                        g.nested = True
+                        self._nested[id(defs[0])] = g
+        if g is None or not (g.name.startswith('_') or getattr(g, 'nested', False)) or g.name.startswith('__'):
             return None
         if g.kind not in ('method', 'function') or g.qual in stack or g.qual == self.func.qual:
             return None
